@@ -39,18 +39,11 @@ Proof.
   - rewrite IH, zlen_app. change (zlen (jmp xoff)) with 3. f_equal. f_equal. f_equal. lia.
 Qed.
 
-(* the desugared programs have no exit repeat *)
 Lemma exit_free_papp p q : exit_free p -> exit_free q -> exit_free (papp p q).
 Proof.
   induction p as [|s r IH|c a _ r IH|c a _ eb _ r IH|c a _ r IH|xoff r IH]; cbn [papp exit_free]; intros Hp Hq;
     try tauto; repeat split; try tauto; apply IH; tauto.
 Qed.
-Lemma exit_free_desugar q : exit_free (desugar q).
-Proof.
-  induction q as [|s r IH|c a IHa r IH|c a IHa eb IHe r IH|c a IHa r IH|down v lo hi a IHa r IH]; cbn [desugar exit_free]; try tauto.
-  split; [|exact IH]. apply exit_free_papp; [exact IHa | cbn [exit_free]; exact I].
-Qed.
-
 (* ---- the pattern of a counting loop ---- *)
 Lemma name_eq_refl n : name_eq n n = true.
 Proof. unfold name_eq. rewrite Bool.eqb_reflx, String.eqb_refl. reflexivity. Qed.
@@ -124,7 +117,7 @@ Qed.
 
 Lemma inits_spos en props : forall q pc, Forall (spos pc) (inits en props pc q).
 Proof.
-  induction q as [|s r IH|c a _ r IH|c a _ eb _ r IH|c a _ r IH|down v lo hi a _ r IH]; intros pc; cbn [inits].
+  induction q as [|s r IH|c a _ r IH|c a _ eb _ r IH|c a _ r IH|down v lo hi a _ r IH|xoff r IH]; intros pc; cbn [inits].
   - constructor.
   - apply (spos_weaken _ _ _ (IH _)). pose proof (zlen_nonneg (compile_s s)). lia.
   - apply (spos_weaken _ _ _ (IH _)). pose proof (zlen_nonneg (compile_e c)). pose proof (code2_nonneg a). lia.
@@ -133,13 +126,14 @@ Proof.
   - destruct (for_lens down v lo hi) as (L1 & L2 & L3). pose proof (zlen_nonneg (compile_e lo)). pose proof (zlen_nonneg (compile_e hi)).
     pose proof (code2_nonneg a).
     constructor; [apply reify_s_spos|]. apply (spos_weaken _ _ _ (IH _)). lia.
+  - apply (spos_weaken _ _ _ (IH _)). lia.
 Qed.
 
 (* ---- deleting the initial assignments at the end of a level ---- *)
 Lemma removal en props : forall q pc X,
   remove_all (inits en props pc q) (final_k true en props pc q ++ X) = Ok (final_k false en props pc q ++ X).
 Proof.
-  induction q as [|s r IH|c a _ r IH|c a _ eb _ r IH|c a _ r IH|down v lo hi a _ r IH]; intros pc X; cbn [inits final_k app].
+  induction q as [|s r IH|c a _ r IH|c a _ eb _ r IH|c a _ r IH|down v lo hi a _ r IH|xoff r IH]; intros pc X; cbn [inits final_k app].
   - reflexivity.
   - apply (remove_all_skip_head _ (pc + zlen (compile_s s))); [apply reify_s_spos | apply inits_spos | apply IH].
   - pose proof (code2_nonneg a).
@@ -152,6 +146,7 @@ Proof.
     rewrite remove_all_head by (destruct (reify_s_spos en props pc (for_init v lo)) as [K _];
                                  destruct (reify_s en props pc (for_init v lo)); try contradiction; rewrite node_eq_stmt; apply Z.eqb_refl).
     match goal with |- remove_all ?I (Stmt ?pe ?c :: ?Y) = _ => apply (remove_all_skip_head _ (pe + 2)); [cbn [shead]; lia | apply inits_spos | apply IH] end.
+  - apply (remove_all_skip_head _ (pc + 3)); [cbn [shead]; lia | apply inits_spos | apply IH].
 Qed.
 
 (* ---- the converted statement list of a program with counting loops ---- *)
@@ -165,6 +160,7 @@ Fixpoint depth2 (q : prog2) : nat :=
   | QIfE _ a eb r => Nat.max (S (Nat.max (depth2 a) (depth2 eb))) (depth2 r)
   | QWhile _ a r => Nat.max (S (depth2 a)) (depth2 r)
   | QFor _ _ _ _ a r => Nat.max (S (depth2 a)) (depth2 r)
+  | QExit _ r => depth2 r
   end.
 
 Lemma str_of_int_1 : str_of_int 1 = "1"%string. Proof. reflexivity. Qed.
@@ -183,7 +179,7 @@ Section LD.
                   = Ok (out ++ final_k true en props pc q, prev', rm ++ inits en props pc q).
   Proof.
     unfold T.
-    induction q as [|s r IH|c a _ r IH|c a _ eb _ r IH|c a _ r IH|down v lo hi a _ r IH]; intros pc Hok Hd out prev rm;
+    induction q as [|s r IH|c a _ r IH|c a _ eb _ r IH|c a _ r IH|down v lo hi a _ r IH|xoff r IH]; intros pc Hok Hd out prev rm;
       cbn [desugar items trees final_k inits depth2 ok2] in *.
     - exists prev. rewrite !app_nil_r. reflexivity.
     - cbn [tree_i fold_left].
@@ -271,6 +267,10 @@ Section LD.
       rewrite Hsign. unfold final.
       replace (pj + 3 + zlen (compile_p (desugar a)) + zlen (compile_s (for_step down v))) with pe by (subst pe; lia).
       rewrite <- !app_assoc. reflexivity.
+    - (* exit repeat: already a statement of its own *)
+      cbn [tree_i fold_left ld_step bind].
+      destruct (IH (pc + 3) Hok Hd (out ++ [Stmt pc (ExitRepeat pc)]) (Some (Stmt pc (ExitRepeat pc))) rm) as [p' E].
+      exists p'. rewrite E, <- app_assoc. reflexivity.
   Qed.
 End LD.
 
@@ -304,7 +304,7 @@ Proof. induction l1 as [|x r IH]; [reflexivity|]. cbn [app depths]. rewrite IH. 
 
 Lemma depth2_le en props : forall q pc, (depth2 q <= depths (items en props pc (desugar q)))%nat.
 Proof.
-  induction q as [|s r IH|c a IHa r IH|c a IHa eb IHe r IH|c a IHa r IH|down v lo hi a IHa r IH]; intros pc; cbn [desugar items depth2].
+  induction q as [|s r IH|c a IHa r IH|c a IHa eb IHe r IH|c a IHa r IH|down v lo hi a IHa r IH|xoff r IH]; intros pc; cbn [desugar items depth2].
   - reflexivity.
   - rewrite depths_cons. specialize (IH (pc + zlen (compile_s s))). cbn [depth_i]. lia.
   - rewrite depths_cons, depth_if. specialize (IHa (pc + zlen (compile_e c) + 3)). specialize (IH (pc + zlen (compile_e c) + 3 + zlen (compile_p (desugar a)))). lia.
@@ -316,6 +316,7 @@ Proof.
   - rewrite !depths_cons, depth_while, items_papp, depths_app.
     specialize (IHa (pc + zlen (compile_s (for_init v lo)) + zlen (compile_e (for_cond down v hi)) + 3)).
     match goal with |- context [items en props ?x (desugar r)] => specialize (IH x) end. cbn [depth_i]. lia.
+  - rewrite depths_cons. specialize (IH (pc + 3)). cbn [depth_i]. lia.
 Qed.
 
 Lemma depth_le_count_any wc : forall l lo hi, @wp wc lo hi l ->
@@ -343,7 +344,7 @@ Qed.
 Definition any_cond (c : node) : bool := true.
 
 Theorem for_handler en props q d off fuel r m :
-  wf_p any_cond en (desugar q) -> ok2 en q -> agrees_p en props m -> m_stack m = [] -> f_stmts (m_fn m) = [] ->
+  wf_p any_cond en (desugar q) -> exits_ok None (desugar q) -> ok2 en q -> agrees_p en props m -> m_stack m = [] -> f_stmts (m_fn m) = [] ->
   code_at d off (code2 q ++ [b 1]) ->
   let pexit := off + zlen (code2 q) in
   let exit_st := Stmt pexit (Call "exit" pexit None true false false) in
@@ -351,11 +352,10 @@ Theorem for_handler en props q d off fuel r m :
     run_ops (ninstr_p (desugar q) + (1 + fuel)) d off (zlen (code2 q ++ [b 1])) off r m = Ok (r', m') /\
     detect (f_stmts (m_fn m')) = Ok (final en props off q ++ [exit_st]).
 Proof.
-  intros Hwf Hok Hag Hst Hnil Hc pexit exit_st. unfold code2 in *. set (p := desugar q) in *.
+  intros Hwf Hxk Hok Hag Hst Hnil Hc pexit exit_st. unfold code2 in *. set (p := desugar q) in *.
   rewrite zlen_app, zlen_cons, zlen_nil in *.
   apply code_at_app in Hc. destruct Hc as [Hcb Hce]. pose proof (zlen_nonneg (compile_p p)).
   assert (Hsi : sinv off m) by (unfold sinv; rewrite Hnil; constructor).
-  assert (Hxk : exits_ok None p) by (apply exit_free_ok; apply exit_free_desugar).
   destruct (exec_p any_cond en props p Hwf None Hxk d off (zlen (compile_p p) + (1 + 0)) off (1 + fuel)%nat r m Hag Hst Hsi Hcb ltac:(lia) ltac:(lia)) as [r1 E1].
   rewrite E1. set (m1 := after_p en props off p m).
   assert (Hs : step d pexit r1 m1 = Ok (pexit + 1, r1, add_stmt m1 pexit (Call "exit" pexit None true false false))).
